@@ -27,7 +27,8 @@ FLOOR = {"quick": 300, "thorough": 5000}
 TIMEOUT = {"quick": 1500, "thorough": 5 * 3600}
 
 RULES = ["reemit_Neg", "reemit_Abs", "reemit_Relu", "reemit_Tanh", "swap_Add", "swap_Mul", "neg_abs", "neg_abs_fn", "neg_and_abs", "transpose3",
-         "abs_plus_zero_init", "reemit_Neg_keep", "neg_abs_keep", "identity_identity", "mul_sub", "mul_sub_fn", "mul_sub", "mul_sub_fn", "neg_abs", "neg_abs_fn", "split_first", "split_first"]
+         "abs_plus_zero_init", "reemit_Neg_keep", "neg_abs_keep", "identity_identity", "mul_sub", "mul_sub_fn", "mul_sub", "mul_sub_fn", "neg_abs", "neg_abs_fn", "split_first", "split_first",
+         "sub_scaled", "sub_scaled"]
 
 
 def make_rule(name):
@@ -86,6 +87,19 @@ def make_rule(name):
 
         kw["condition_function"] = fresh_float
         return pattern.RewriteRule(lambda op, x: op.Abs(x), repl, **kw)
+    if name == "sub_scaled":
+        # x - y  ->  x * 1 + y * (-1) (bit-exact in IEEE arithmetic); the replacement creates TWO initializers whose names derive from
+        # the bound values: with x and y bound to the same value the names coincide while the tensors differ
+        def repl_sub(op, x, y):
+            cx = op.initializer(ir.tensor(np.asarray(1.0, dtype=np.float32), name=f"{x.name}_coef"))
+            cy = op.initializer(ir.tensor(np.asarray(-1.0, dtype=np.float32), name=f"{y.name}_coef"))
+            return op.Add(op.Mul(x, cx), op.Mul(y, cy))
+
+        def fresh_f32(context, x, y, **kwargs):
+            return fresh(context) and x.dtype == ir.DataType.FLOAT and y.dtype == ir.DataType.FLOAT
+
+        kw["condition_function"] = fresh_f32
+        return pattern.RewriteRule(lambda op, x, y: op.Sub(x, y), repl_sub, **kw)
     if name == "identity_identity":
         return pattern.RewriteRule(lambda op, x: op.Identity(op.Identity(x)), lambda op, x: op.Identity(x), **kw)
     raise ValueError(name)
@@ -101,7 +115,7 @@ def touched_ops(rule):
     if base.startswith(("reemit_", "swap_")):
         return {base.split("_")[1]}
     return {"split_first": {"Split"}, "mul_sub": {"Mul", "Sub"}, "mul_sub_fn": {"Mul", "Sub", "MulSub"}, "neg_abs": {"Neg", "Abs"}, "neg_abs_fn": {"Neg", "Abs", "NegAbs"}, "neg_and_abs": {"Neg", "Abs"}, "transpose3": {"Transpose"},
-            "abs_plus_zero_init": {"Abs", "Add"}, "identity_identity": {"Identity"}}[base]
+            "abs_plus_zero_init": {"Abs", "Add"}, "identity_identity": {"Identity"}, "sub_scaled": {"Sub", "Add", "Mul"}}[base]
 
 
 # ----------------------------------------------------------------------------- structural scans (independent of the rewriter)
@@ -153,7 +167,7 @@ def instance_exists(model, rule):
             for n in std:
                 if n.op_type == "Transpose" and any(a.name == "perm" and list(a.ints) == [1, 0] for a in n.attribute):
                     return where
-        elif base == "abs_plus_zero_init":
+        elif base in ("abs_plus_zero_init", "sub_scaled"):
             pass  # needs the dtype of x: no completeness claim for this rule
         elif base in ("neg_abs", "neg_abs_fn", "identity_identity", "mul_sub", "mul_sub_fn"):
             inner, outer = ("Mul", "Sub") if base.startswith("mul_sub") else ("Abs", "Neg") if base != "identity_identity" else ("Identity", "Identity")
@@ -280,8 +294,12 @@ def _plant(g):
     v = g.pick_val(lambda v: v.dtype in (modelgen.F32, modelgen.F64, modelgen.I64))
     if v is None:
         return
-    k = g.pick(["neg_abs", "neg_and_abs", "add", "mul", "transpose", "idid", "chain", "mul_sub", "mul_sub", "in_body", "in_body", "in_body", "split2", "split2"])
+    k = g.pick(["neg_abs", "neg_and_abs", "add", "mul", "transpose", "idid", "chain", "mul_sub", "mul_sub", "in_body", "in_body", "in_body", "split2", "split2",
+                "sub_same", "sub_same"])
     g.features.add("planted:c07:" + k)
+    if k == "sub_same":
+        f = g.pick_val(lambda t: t.dtype == modelgen.F32) or v
+        return g.emit("Sub", [f, f if g.chance(7) else g._second(f)])
     if k == "mul_sub":
         w, u = g._second(v), g._second(v)
         ops = g.pick([(v, w, u), (v, v, u), (v, w, v), (v, w, w), (v, v, v)])  # pattern variables bound to the same value
